@@ -111,14 +111,20 @@ class C08:
                 spec["log_width"] = rs(rng.choice([0.5, 0.25, 1.0]))
                 spec["count"] = rng.randint(1, 5)
             n = {"static": len(pairs), "numpy": len(spec.get("edges", [])) - 1}.get(bt, spec.get("count", 0))
-            big = rng.random() < 0.2
+            big = rng.random() < 0.35 and dt in ("int64", "float64", "int32", "float128")
             isint = dt.startswith("int")
-            f = [(rng.choice([250000, 250003]) if big and dt in ("int64", "float64") else rng.randint(0, 30)) if isint or rng.random() < 0.5
-                 else rng.randint(0, 120) / 4 for _ in range(n)]
+            if big:
+                # large counts with a few non-unit weights: squared errors close to, but not equal to, the contents
+                f = [rng.choice([250000, 250003, 1000000]) for _ in range(n)]
+            else:
+                f = [rng.randint(0, 30) if isint or rng.random() < 0.5 else rng.randint(0, 120) / 4 for _ in range(n)]
             if dt == "float16":
                 f = [min(x, 500) for x in f]
             spec["freq"] = [rs(x) for x in f]
-            spec["err2"] = None if rng.random() < 0.4 else [rs(x + rng.choice([0, 0, 1.25 if not isint else 2, 7])) for x in f]
+            if big:
+                spec["err2"] = [rs(x + rng.choice([0, 1, 2, 1.25 if not isint else 1])) for x in f]
+            else:
+                spec["err2"] = None if rng.random() < 0.4 else [rs(x + rng.choice([0, 0, 1.25 if not isint else 2, 7])) for x in f]
             m = rng.choice(["zero", "nonzero", "nan"])
             spec["missed"] = {"zero": ["0", "0", "0"], "nonzero": [rs(rng.randint(0, 9)), rs(rng.randint(0, 9)), rs(rng.randint(0, 3))],
                               "nan": [None, None, "0"]}[m]
@@ -269,9 +275,9 @@ class C08:
         doc = model_ok[1]["ret"]
         d = []
         impl = o["dict"]
-        if impl["histogram_type"] != doc["histogram_type"]:
+        if impl.get("histogram_type") != doc["histogram_type"]:
             d.append("document: histogram_type")
-        ib = impl["binnings"][0]
+        ib = (impl.get("binnings") or [{}])[0]
         mb = doc["binning"]
         if mb["t"] == "fixed":
             got = {"adaptive": ib.get("adaptive"), "count": ib.get("bin_count"), "w": rs(ib.get("bin_width")), "shift": rs(ib.get("bin_shift")),
@@ -288,14 +294,17 @@ class C08:
             if got != mb["bins"]:
                 d.append("document: bins")
         for mk, ik in (("freq", "frequencies"), ("err2", "errors2")):
+            if impl.get(ik) is None:
+                d.append(f"document: {ik} is not written")
+                continue
             if [Fraction(x) for x in doc[mk]] != [Fraction(float(x)) if not isinstance(x, int) else Fraction(x) for x in impl[ik]]:
                 d.append(f"document: {ik} model={doc[mk]} impl={impl[ik]}")
-        if doc["dtype"] != impl["dtype"]:
-            d.append(f"document: dtype model={doc['dtype']} impl={impl['dtype']}")
-        if doc["missed_keep"] != impl["missed_keep"]:
+        if doc["dtype"] != impl.get("dtype"):
+            d.append(f"document: dtype model={doc['dtype']} impl={impl.get('dtype')}")
+        if doc["missed_keep"] != impl.get("missed_keep"):
             d.append("document: missed_keep")
         if case["spec"]["keep"]:
-            im = [nrs(x) for x in impl["missed"]]
+            im = [nrs(x) for x in impl.get("missed", [])]
             if [None if x is None else Fraction(x) for x in doc["missed"]] != [None if x is None else Fraction(x) for x in im]:
                 d.append(f"document: missed model={doc['missed']} impl={im}")
         # the object read back
